@@ -182,7 +182,7 @@ def finish(prop, tier, seed, mod, results, t0, tree_hash, no_replay=False, extra
         witnesses.update(r['witnesses'])
         stats['accepted_paths'] += r['accepted']
         stats['rejected_paths'] += r['rejected']
-        samples.extend(r['samples'])
+        samples.extend(x for x in r['samples'] if not x.get('skip_native'))
         violations.extend(r['violations'])
         panics.extend(r['panics'])
     # encoder validation: concrete instances of explored paths must behave the same on the real code
